@@ -13,6 +13,7 @@
 //   See the License for the specific language governing permissions and
 //   limitations under the License.
 //
+#include <algorithm>          // for replace
 #include <errno.h>          // for errno
 #include <string.h>         // for strerror
 #include <iomanip>          // for operator<<, setw, setfill, hex, uppercase
@@ -141,6 +142,11 @@ public:
 	  {
 	    output_basename = string(1, entry.directory()) + "." + rtrim(entry.name());
 	  }
+	// DFS names can contain '/', which the host would interpret as a
+	// directory separator (so a file called ../../x would be created
+	// outside the destination directory).  Keep the output inside
+	// the destination; the .inf file still records the DFS name.
+	std::replace(output_basename.begin(), output_basename.end(), '/', '_');
 	const string output_body_file = dest_dir + output_basename;
 
 	std::ofstream outfile(output_body_file, std::ofstream::out);
